@@ -170,9 +170,12 @@ def run_case(case):
                     bad(f"first_step|{newton}", f"first step differs from Simplified: {gx.tolist()},{gy.tolist()} vs {fx.tolist()},{fy.tolist()}",
                         {"base": xb.tolist(), "y0": y.tolist(), "rho": rho, "dt": dt})
             # sequences of steps on ONE method object: iterates whose natural active sets alternate (A, B, A, C)
-            seq = [(xb, y), (base_pts[1 - bi], 0.5 * y - 0.5), (xb, y), (0.5 * (xb + base_pts[1 - bi]), 0.5 * y + 0.25), (base_pts[1 - bi], 0.5 * y - 0.5)]
+            near1 = np.clip(xb + 0.03125 * np.resize(np.array([1.0, -1.0, 0.5]), T.n), T.var_lb, T.var_ub)
+            near2 = np.clip(xb - 0.0625 * np.resize(np.array([0.5, 1.0, -1.0]), T.n), T.var_lb, T.var_ub)
+            seq = [(xb, y), (near1, y + 0.125), (near2, y - 0.25), (base_pts[1 - bi], 0.5 * y - 0.5), (xb, y),
+                   (0.5 * (xb + base_pts[1 - bi]), 0.5 * y + 0.25), (base_pts[1 - bi], 0.5 * y - 0.5), (near1, y + 0.125)]
             for newton in ("Simplified", "Full", "ActiveSet"):
-                for ss in ("Standard", "Symmetric"):
+                for ss in ("Standard", "Symmetric", "Extended", "Asymmetric"):
                     params, P, ev = P_of(ss, "LU", newton)
                     it0 = Iterate(P, params, xb, y, ev)
                     with np.errstate(all="ignore"):
